@@ -20,7 +20,7 @@ print({k: n for k, n in sorted(kinds.items(), key=lambda x: str(x))})
 rows = [json.load(open(f)) for f in sorted(glob.glob('/verif/seeded/C*/meta.json'))]
 c = collections.Counter(r['static_check']['initially'] for r in rows)
 print('seeded', len(rows), dict(c))
-byround = collections.Counter((os.path.basename(os.path.dirname(f)).split('-')[1][:2] if os.path.basename(os.path.dirname(f)).split('-')[1].startswith('r') else 'r1', json.load(open(f))['static_check']['initially']) for f in sorted(glob.glob('/verif/seeded/C*/meta.json')))
+byround = collections.Counter(('r1' if os.path.basename(os.path.dirname(f)).split('-')[1].startswith('m') else os.path.basename(os.path.dirname(f)).split('-')[1][:2], json.load(open(f))['static_check']['initially']) for f in sorted(glob.glob('/verif/seeded/C*/meta.json')))
 print(dict(byround))
 import subprocess
 print('lines:', subprocess.run('wc -l /verif/mpsa/*.py /verif/rules/*.py /verif/selftest/*.py | tail -1', shell=True, capture_output=True, text=True).stdout.strip())
